@@ -150,7 +150,9 @@ func (c *SimConn) Close() error {
 		poke(c.out.rwake)
 		poke(c.in.wwake)
 	})
+	c.out.mu.Lock()
 	c.CloseCount++
+	c.out.mu.Unlock()
 	return nil
 }
 
